@@ -1149,8 +1149,10 @@ fn realise(g: &Gene, plain: bool, index: usize, allow: Allow) -> Realised {
     }
     let target = decls.len() - 1;
     let tty = FT::Nested(target);
-    let has_float = tty.any(&decls, &|t| *t == FT::Float);
-    let has_dict = tty.any(&decls, &|t| matches!(t, FT::Dict(_)));
+    // one derive set for every declaration of the program, reachable from the target or not
+    let all = |f: &dyn Fn(&FT) -> bool| decls.iter().any(|d| d.fields.iter().any(|fd| fd.ty.any(&decls, f)));
+    let has_float = all(&|t| *t == FT::Float);
+    let has_dict = all(&|t| matches!(t, FT::Dict(_)));
     let der = if has_float || has_dict {
         Derives {
             json: gen::idx(g.json, 100) < 92,
